@@ -10,7 +10,9 @@ GEN_PARTS = ["consts", "super", "announce"]
 def build_and_prove(ctx, module, extra_parts=()):
     with vlib.Lock():
         ok_go = ctx.phase(ctx.build_go)
-        ok_gen = ok_go and ctx.phase(ctx.regen, GEN_PARTS + list(extra_parts))
+        parts = GEN_PARTS + [p for p in extra_parts if p not in GEN_PARTS]
+        parts += [p for p in vlib.gen_parts_of(module) if p not in parts]
+        ok_gen = ok_go and ctx.phase(ctx.regen, parts)
         if ok_gen:
             if ctx.phase(ctx.prove, module) and ctx.phase(ctx.audit, module) and ctx.tier == "thorough":
                 ctx.phase(ctx.leanchecker, module)
